@@ -2,6 +2,9 @@
 from vlib import hexs, unhex
 from props import textdoc as td
 from props import textgen as tg
+# >>> a_c01
+from props import C01_more
+# <<< a_c01
 
 RULE = ("documents from the abstract model (8 operators, quoted/unquoted/@var/@[..]/non-ASCII scalars, escaped quotes, nested objects, arrays, "
         "arrays of objects, empty containers, headers, parameter blocks, object->array and array->kv mixed containers) x 8 layout styles "
@@ -153,6 +156,10 @@ def run(ctx):
     for _ in range(ctx.scale(1500, 20000)):
         sc.append("tt.parse\t%s" % hexs(tg.gen_stream(rng)))
     ctx.correspond("soups", sc, nontrivial=lambda c, i: i.startswith("ok") and len(i) > 8)
+
+    # >>> a_c01 (wave 4): adversarial layouts, the classes wf_doc excludes, reuse chains, non-x86-64 scanners (audit/C01.md)
+    C01_more.run_part(ctx)
+    # <<< a_c01
 
 
 def search(ctx):
